@@ -15,31 +15,37 @@ Rec == rec
 AxesOf(s) == CASE s = "" -> NoAxes [] s = "10" -> <<1, 0>> [] s = "021" -> <<0, 2, 1>> [] s = "102" -> <<1, 0, 2>> [] OTHER -> <<9>>
 T(r) == Tr(r.factor, r.conj, AxesOf(r.axes))
 DeclClauses ==
-   [ known_formula |-> Rec.name \in Formulas,
-     equals_code_model |-> Rec.name \in Formulas => (T(Rec.tr) = Declared(Rec.name).tr /\ T(Rec.inv) = Declared(Rec.name).inv),
-     equals_derived |-> Rec.name \in Formulas => (T(Rec.tr) = Expected(Rec.name).tr /\ T(Rec.inv) = Expected(Rec.name).inv),
+   [ known_formula |-> Rec.name \in AllNames,
+     equals_code_model |-> Rec.name \in AllNames => (T(Rec.tr) = Declared(Rec.name).tr /\ T(Rec.inv) = Declared(Rec.name).inv),
+     equals_derived |-> Rec.name \in AllNames => (T(Rec.tr) = Expected(Rec.name).tr /\ T(Rec.inv) = Expected(Rec.name).inv),
      involution |-> IsTransform(T(Rec.tr)) /\ IsTransform(T(Rec.inv)) /\ IsInvolution(T(Rec.tr)) /\ IsInvolution(T(Rec.inv)) ]
 Decl1Clauses ==
    LET d == IF Rec.sym = "TR" THEN Declared(Rec.name).tr ELSE Declared(Rec.name).inv
        e == IF Rec.sym = "TR" THEN Expected(Rec.name).tr ELSE Expected(Rec.name).inv IN
-   [ known_formula |-> Rec.name \in Formulas,
-     equals_code_model |-> Rec.name \in Formulas => T(Rec.t) = d,
-     equals_derived |-> Rec.name \in Formulas => T(Rec.t) = e,
+   [ known_formula |-> Rec.name \in AllNames,
+     equals_code_model |-> Rec.name \in AllNames => T(Rec.t) = d,
+     equals_derived |-> Rec.name \in AllNames => T(Rec.t) = e,
      involution |-> IsTransform(T(Rec.t)) /\ IsInvolution(T(Rec.t)) ]
+(* kind = "tprod": TransformProduct of Transform objects given by VALUE (also objects that are equal to, but not identical
+   with, the module constants) *)
+TProdClauses ==
+   LET ts == [k \in 1..Len(Rec.ts) |-> T(Rec.ts[k])] IN
+   [ product_rule |-> T(Rec.out) = TransformProduct(ts) ]
 USignClauses ==
    [ sign_equals_own_declaration |-> Rec.sign = Rec.declared /\ Rec.sign \in {1, -1} ]
 CovClauses ==
    LET d == DeclOf(Cov(Rec.name, Rec.commader, Rec.gender)) IN
    [ equals_code_model |-> T(Rec.tr) = d.tr /\ T(Rec.inv) = d.inv ]
 SignClauses ==
-   [ known_formula |-> Rec.name \in Formulas,
-     sign_equals_derived |-> Rec.name \in Formulas =>
+   [ known_formula |-> Rec.name \in AllNames,
+     sign_equals_derived |-> Rec.name \in AllNames =>
          Rec.sign = (IF Rec.sym = "TR" THEN Expected(Rec.name).tr.factor ELSE Expected(Rec.name).inv.factor),
-     sign_equals_declared |-> Rec.name \in Formulas =>
+     sign_equals_declared |-> Rec.name \in AllNames =>
          Rec.sign = (IF Rec.sym = "TR" THEN Declared(Rec.name).tr.factor ELSE Declared(Rec.name).inv.factor) ]
 Clauses == CASE Rec.kind = "decl" -> DeclClauses
              [] Rec.kind = "decl1" -> Decl1Clauses
              [] Rec.kind = "usign" -> USignClauses
+             [] Rec.kind = "tprod" -> TProdClauses
              [] Rec.kind = "cov" -> CovClauses
              [] Rec.kind = "sign" -> SignClauses
 Report == LET C == Clauses IN \A n \in DOMAIN C : C[n] \/ PrintT(<<"BAD", i, n>>)      \* the table is evaluated once
